@@ -142,16 +142,9 @@ func (u *upstream) stop() {
 	}
 }
 
-// a loopback address nobody listens on
-func deadAddr() net.Addr {
-	ln, err := net.Listen("tcp", "127.0.0.1:0")
-	if err != nil {
-		panic(err)
-	}
-	a := ln.Addr()
-	ln.Close()
-	return a
-}
+// a loopback address nobody listens on: port 1 is below the ephemeral range, so no listener of this (or a parallel)
+// harness process can ever be handed it; the connect is refused at once.
+var deadAddr net.Addr = &net.TCPAddr{IP: net.IPv4(127, 0, 0, 1), Port: 1}
 
 // ---------------------------------------------------------------------------------------------------------------
 // recording host: the real simple host, but CreateConnection is observed (and can be pointed at a dead port)
@@ -246,7 +239,7 @@ var clusterSeq int64
 
 func newWorld(kind string, maxConn, maxReq uint32) *world {
 	register()
-	w := &world{kind: kind, maxConn: maxConn, maxReq: maxReq, up: newUpstream(), dead: deadAddr()}
+	w := &world{kind: kind, maxConn: maxConn, maxReq: maxReq, up: newUpstream(), dead: deadAddr}
 	addr := w.up.ln.Addr().String()
 	name := fmt.Sprintf("c09-%d", atomic.AddInt64(&clusterSeq, 1))
 	cc := v2.Cluster{
@@ -462,7 +455,9 @@ func (w *world) response(si int, connClose bool) {
 	case "pp":
 		w.writeUp(s.conn, w.ppResponse(s.sender.GetStream().ID()))
 	}
-	if !waitFor(settleTimeout, func() bool { r, _, d := s.get(); return r > 0 || d > 0 }) {
+	// the receiver wrapper destroys the stream first and calls OnReceive second: wait for the delivery itself
+	// (or for a reset, if the exchange failed instead)
+	if !waitFor(settleTimeout, func() bool { r, rs, d := s.get(); return r > 0 || (d > 0 && len(rs) > 0) }) {
 		w.timeouts++
 	}
 }
